@@ -344,3 +344,44 @@ def shrink_program(program):
                     p["files"][fi]["sites"][sid]["prev"] = sv
                     p["files"][fi]["sites"][sid]["arg"] = V.expr(sv)
                     yield p
+
+
+def add_mutation_test(rng, f, prefix="m", ops=("eq", "in", "item", "le", "ge"), style="rec", prev=False):
+    """append to file spec f one test that interleaves comparisons of a bound mutable object with in-place
+    mutations (the C17 dimension inside other workloads).  Returns the new test."""
+    from . import values as V
+
+    n0 = len(f["sites"])
+    prof = V.Profile(max_depth=1)
+    val, muts = V.gen_mutable(rng, prof)
+    orderable = val[0] == "list" and all(x[0] == "int" for x in val[1])
+    usable = [o for o in ops if o in ("eq", "in", "item") or orderable]
+    op = rng.choice(usable)
+    events = [{"t": "bind", "var": f"{prefix}x", "val": val}]
+    shared_sid = f"{prefix}s{n0}"
+    repeated = op in ("in", "le", "ge") and rng.random() < 0.7
+    arg = None
+    pv = None
+    if prev and op in ("le", "ge") and rng.random() < 0.5:
+        pv = ["list", [["int", rng.randint(0, 9)]]]
+        arg = V.expr(pv)
+    f["sites"][shared_sid] = {"op": op, "place": rng.choice(["func", "lam"]) if repeated else "direct", "arg": arg, "prev": pv}
+    k = 0
+
+    def cmp_event():
+        nonlocal k
+        k += 1
+        e = {"t": "cmp", "eid": f"{prefix}e{n0}_{k}", "site": shared_sid, "var": f"{prefix}x", "style": style}
+        if op == "item":
+            e["key"] = ["str", "k"]
+            e["cop"] = "eq"
+        return e
+
+    events.append(cmp_event())
+    for _ in range(rng.randint(1, 3)):
+        events.append({"t": "mutate", "var": f"{prefix}x", "how": rng.choice(muts)})
+        if repeated and rng.random() < 0.8:
+            events.append(cmp_event())
+    t = {"name": f"test_{prefix}{n0}", "events": events}
+    f["tests"].append(t)
+    return t
